@@ -5,6 +5,9 @@
 #include "aln_param.h"
 
 #include "aln_struct.h"
+#ifdef KALIGN_VERIF
+#include "kalign_verif.h"
+#endif
 
 #define ALN_SEQSEQ_IMPORT
 #include "aln_seqseq.h"
@@ -13,6 +16,9 @@
 
 int aln_seqseq_foward(struct aln_mem* m)
 {
+#ifdef KALIGN_VERIF
+        kv_dp(KV_FWD_BEGIN, m);
+#endif
         struct states* s = m->f;
         const uint8_t* seq1 = m->seq1;
         const uint8_t* seq2 = m->seq2;
@@ -107,11 +113,17 @@ int aln_seqseq_foward(struct aln_mem* m)
                         s[j].gb = MAX(s[j].gb,ca)-tgpe;
                 }
         }
+#ifdef KALIGN_VERIF
+        kv_dp(KV_FWD_END, m);
+#endif
         return OK;
 }
 
 int aln_seqseq_backward(struct aln_mem* m)
 {
+#ifdef KALIGN_VERIF
+        kv_dp(KV_BWD_BEGIN, m);
+#endif
         struct states* s = m->b;
         const uint8_t* seq1 = m->seq1;
         const uint8_t* seq2 = m->seq2;
@@ -219,12 +231,18 @@ int aln_seqseq_backward(struct aln_mem* m)
                         s[j].gb = MAX(s[j].gb,ca)-tgpe;
                 }
         }
+#ifdef KALIGN_VERIF
+        kv_dp(KV_BWD_END, m);
+#endif
         return OK;
 }
 
 
 int aln_seqseq_meetup(struct aln_mem* m,int old_cor[],int* meet,int* t,float* score)
 {
+#ifdef KALIGN_VERIF
+        kv_dp(KV_MEET_BEGIN, m);
+#endif
         struct states* f = m->f;
         struct states* b = m->b;
 
@@ -337,5 +355,8 @@ int aln_seqseq_meetup(struct aln_mem* m,int old_cor[],int* meet,int* t,float* sc
         *meet = c;
         *t = transition;
         *score = max;
+#ifdef KALIGN_VERIF
+        kv_dp(KV_MEET_END, m);
+#endif
         return OK;
 }
